@@ -47,7 +47,7 @@ func init() {
 			"each recovery runs a seeded script of <= 30 get/has/set/delete/copy/iterate/reverse-iterate operations (keys with the subject prefix, the substitute prefix, none, near-miss, doubled, prefix-only, nil; ranges with one, two different, one missing or no prefix and nil bounds) inside the contract's migrate_client_store call, " +
 			"optionally ending in a contract error, VM error, panic or forbidden response at a seeded position. A case is non-trivial and distinct per (outcome, operation kind, key shape, effect) that was executed against the real recovery store",
 		NonTrivPrefixes: []string{"C29/"},
-		Worlds:          map[string]int{"quick": 96, "thorough": 960},
+		Worlds:          map[string]int{"quick": 288, "thorough": 2880},
 		NewProfile: func(cfg sim.WorldConfig) sim.Profile {
 			o := DefaultWasmOptions()
 			if len(cfg.Extra) > 0 {
